@@ -130,6 +130,8 @@ fn show_expand(res: Result<String, anyhow::Error>) -> String {
                 format!("err missing {}", hex(rest.strip_suffix('"').unwrap_or(rest)))
             } else if let Some(rest) = msg.strip_prefix("cycle involving variable \"") {
                 format!("err cycle {}", hex(rest.strip_suffix('"').unwrap_or(rest)))
+            } else if let Some((_, rest)) = msg.split_once(" levels deep at variable \"") {
+                format!("err toodeep {}", hex(rest.strip_suffix('"').unwrap_or(rest)))
             } else if let Some(rest) = msg.strip_prefix("unclosed brace at pos ") {
                 format!("err unclosed {rest}")
             } else if msg.starts_with("expression error") {
